@@ -568,3 +568,19 @@ Qed.
    byte for byte with the real binary's output on inputs where that is the case (harness c04.py) *)
 Definition cli_bytes_raw (mt : bool) (s : cli_state) (fileSize : Z) (dict content : list Z) : list Z :=
   cli_compress c4_header (c4_frame blk_raw) (c4_update blk_raw) (c4_end blk_raw) (fun _ c => c) mt s fileSize dict content.
+
+(* the legacy hypothesis is satisfiable: a block compressor that emits one literal-only sequence *)
+From LZ4V Require Proofs.BlockSpecProofs Proofs.FastCap.
+Definition cblk_lit (level : Z) (c : list Z) : option (list Z) := Some (encode_block [] c).
+Lemma cblk_lit_contract : legacy_blk_contract cblk_lit.
+Proof.
+  intros level c Hl. exists (encode_block [] c). split; [reflexivity|]. split.
+  - unfold strict_valid, parse_block.
+    rewrite (LZ4V.Proofs.BlockSpecProofs.parse_seqs_encode [] c (S (length (encode_block [] c))) (Forall_nil _) ltac:(cbn [length]; lia)).
+    cbn [end_ok rev]. unfold run_seqs. cbn [apply_seqs rev length skipn app]. rewrite app_nil_r, rev_involutive. reflexivity.
+  - unfold lenZ. rewrite LZ4V.Proofs.FastCap.encode_block_length_Z. cbn [LZ4V.Proofs.FastCap.sumlen].
+    pose proof (LZ4V.Proofs.FastCap.extlen_bound (Z.of_nat (length c)) ltac:(lia)) as B.
+    unfold lenZ in Hl. change LEGACY_BLOCKSIZE with 8388608 in Hl. change LZ4IO_LEGACY_BOUND with 8421520.
+    unfold byte in *. set (n := Z.of_nat (length c)) in *. set (e := LZ4V.Proofs.FastCap.extlen n) in *.
+    destruct (n <? 15) eqn:E; [apply Z.ltb_lt in E|apply Z.ltb_ge in E]; lia.
+Qed.
